@@ -210,7 +210,8 @@ class Worker:
             kind, what = self.call(job, data)
             rec.begin(inject=inject, dry=(op == "dry"))
             # a library loop may iterate linearly in what it walks; decompressed parts are larger than the file
-            rec.loop_bound = 256 * max(len(data), int(job.get("approx_size", 0))) + (1 << 20)
+            # (observed on all seeds and ~150k mutants: at most 2.0 iterations per input byte, the RTF stripper)
+            rec.loop_bound = 16 * len(data) * max(1, int(job.get("members", 1))) + (1 << 21)
             if kind == "gen":
                 n, esc = 0, "Done"
                 try:
@@ -283,7 +284,7 @@ class Worker:
         rec = self.rec
         rec.set_line_events(False)
         rec.begin()
-        rec.loop_bound = 256 * len(data) + (1 << 20)
+        rec.loop_bound = 16 * len(data) + (1 << 21)
         out = {"id": job.get("id"), "sha": __import__("hashlib").sha256(data).hexdigest()[:16], "size": len(data),
                "detail": []}
         calls = []
